@@ -24,9 +24,30 @@ import MythVerif.Model.WsQueue
     `e` (the element whose slot store precedes it in the same FIFO buffer); draining it conses `e`
     to the abstract deque.
 
+    Re-centring (push at `top == size`, put at `base == 0`; both under the lock, entered with an
+    empty buffer because the lock CAS is a locked instruction).  The `memmove` of the live window
+    is ONE buffer entry `Sto.shift lo hi off`; draining it moves the slots `[lo, hi)` by `off` in
+    memory.  The stores of `top` and `base` that follow are ordinary entries behind it, and so
+    are – for put – the slot store and the inserting `base` store of the insertion proper (no
+    fence separates them from the re-centring: the owner's buffer can hold all five).  Why one
+    entry is enough: the individual slot stores of `memmove` could only be told apart by a load
+    of a slot that happens while some of them have drained and others have not.  Slots are
+    loaded by (i) a participant holding the queue lock (take's `tk3`) – excluded until the
+    owner's unlock, whose fence drains the whole buffer first; (ii) the owner itself, which
+    forwards from its own buffer and sees the moved window whatever has drained; (iii) the
+    lock-free `myth_queue_peek` (`pk3`), whose value the model does not record at all, i.e. it
+    may be anything.  The other lock-free loads (the quick checks `tq0/tq1`, `kq0/kq1`, peek's
+    `pk1/pk2`) read `top` / `base` only – whatever memory holds at that moment, possibly the
+    half-updated pair in the middle of a re-centring – and nothing in the invariant or in the
+    theorems constrains the values they read: a take re-reads both under the lock, peek is
+    advisory.  The logical window `lb`/`lt` moves when the shift entry drains (memory-side
+    clauses stay valid as they are); the ghost `sh` is the offset of a shift entry that is still
+    buffered (0 otherwise), so that `lb + sh` / `lt + sh` are the owner's view of `base` / `top`.
+    `stuck` / `stuckL` are the two `abort()`s ("Runqueue overflow": `top == size ∧ base == 0`),
+    reached holding the lock.
+
     Not modelled here (the `_partial` in the theorem name): the wsapi functions, the steal
-    cache, clear, re-centring (a push at `top == size` goes to `stuck`, a put at `base == 0` goes
-    to `stuckL` – still holding the lock, as the code does while it re-centres). -/
+    cache, clear. -/
 namespace MythVerif.WsqTso
 open MythVerif.Wsq
 
@@ -46,13 +67,20 @@ inductive Sto where
   | ptr (i : Int) (x : Option Elem)
   | unlock
   | baseI (v : Int) (e : Elem)       -- store of `base` by put / trypass (ghost tag: the element inserted)
+  | shift (lo hi off : Int)          -- memmove(&ptr[lo+off], &ptr[lo], hi-lo) of a re-centring
   deriving DecidableEq, Repr
 
 inductive OPc where
   | idle
-  | stuck                            -- push at top == size (re-centring is outside this model)
+  | stuck                            -- push: abort() at top == size && base == 0 (lock held)
   | pu0 (e : Elem)                   -- t = q->top
-  | pu0f (e : Elem) (t : Int)        -- rbarrier
+  | pu0f (e : Elem) (t : Int)        -- rbarrier ; if (t == q->size)
+  | pul (e : Elem)                   -- lock CAS
+  | pub (e : Elem)                   -- if (q->base == 0) abort ; offset = (-q->base-1)/2
+  | pum (e : Elem) (off : Int)       -- memmove
+  | pus (e : Elem) (off : Int)       -- q->top += offset
+  | puv (e : Elem) (off : Int)       -- q->base += offset ; t = q->top
+  | pux (e : Elem) (t : Int)         -- unlock
   | pu1 (e : Elem) (t : Int)         -- q->ptr[t] = th
   | pu2 (e : Elem) (t : Int)         -- q->top = t+1
   | pq                               -- quick check
@@ -68,9 +96,13 @@ inductive OPc where
   | po7                              -- q->top = size/2
   | po8                              -- q->base = size/2
   | po9                              -- unlock
-  | stuckL                           -- put at base == 0 (re-centring is outside this model; lock held)
+  | stuckL                           -- put: abort() at base == 0 && top == size (lock held)
   | ptl (e : Elem)                   -- lock CAS
   | pt1 (e : Elem)                   -- if (q->base == 0)
+  | pt2 (e : Elem)                   -- if (q->top == q->size) abort ; offset = (size-top+1)/2
+  | pt3 (e : Elem) (off : Int)       -- memmove
+  | pt4 (e : Elem) (off : Int)       -- q->top += offset
+  | pt5 (e : Elem) (off : Int)       -- q->base += offset
   | pt6 (e : Elem)                   -- b = q->base
   | pt7 (e : Elem) (b : Int)         -- q->ptr[b-1] = th
   | pt8 (e : Elem) (b : Int)         -- q->base = b-1
@@ -120,11 +152,13 @@ structure St where
   flT  : Option Elem
   retd : List Elem
   ins  : List Elem
+  sh   : Int        -- offset of a buffered (not yet drained) shift entry, else 0
 
 def init (cfg : FenceCfg) (n : Int) : St :=
   { cfg := cfg, top := n / 2, base := n / 2, ptr := fun _ => none, size := n, lock := .free,
     bufO := [], bufT := fun _ => [], opc := .idle, tpc := fun _ => .idle,
-    A := [], lb := n / 2, lt := n / 2, tr := false, flO := none, flT := none, retd := [], ins := [] }
+    A := [], lb := n / 2, lt := n / 2, tr := false, flO := none, flT := none, retd := [], ins := [],
+    sh := 0 }
 
 /-- newest buffered value of `top`, else the given (memory) value -/
 def viewTop : List Sto → Int → Int
@@ -134,6 +168,7 @@ def viewTop : List Sto → Int → Int
   | .ptr _ _ :: r, m => viewTop r m
   | .unlock :: r, m => viewTop r m
   | .baseI _ _ :: r, m => viewTop r m
+  | .shift _ _ _ :: r, m => viewTop r m
 def viewBase : List Sto → Int → Int
   | [], m => m
   | .base v :: r, _ => viewBase r v
@@ -141,6 +176,7 @@ def viewBase : List Sto → Int → Int
   | .ptr _ _ :: r, m => viewBase r m
   | .unlock :: r, m => viewBase r m
   | .baseI v _ :: r, _ => viewBase r v
+  | .shift _ _ _ :: r, m => viewBase r m
 def viewPtr : List Sto → (Int → Option Elem) → Int → Option Elem
   | [], m, i => m i
   | .ptr j x :: r, m, i => viewPtr r (upd m j x) i
@@ -148,15 +184,18 @@ def viewPtr : List Sto → (Int → Option Elem) → Int → Option Elem
   | .base _ :: r, m, i => viewPtr r m i
   | .unlock :: r, m, i => viewPtr r m i
   | .baseI _ _ :: r, m, i => viewPtr r m i
+  | .shift lo hi off :: r, m, i => viewPtr r (shiftPtr m lo hi off) i
 
 /-- drain one store into memory (ghost `tr` follows the memory value of `base`; the drain of an
-    inserting `base` store is the linearization point of put / trypass) -/
+    inserting `base` store is the linearization point of put / trypass; the drain of a shift moves
+    the logical window together with the slots) -/
 def applySto (s : St) : Sto → St
   | .top v => { s with top := v }
   | .base v => { s with base := v, tr := decide (v = s.lb + 1) }
   | .ptr i x => { s with ptr := upd s.ptr i x }
   | .unlock => { s with lock := .free }
   | .baseI v e => { s with base := v, tr := false, A := e :: s.A, lb := s.lb - 1, ins := e :: s.ins }
+  | .shift lo hi off => { s with ptr := shiftPtr s.ptr lo hi off, lb := s.lb + off, lt := s.lt + off, sh := 0 }
 
 inductive Lbl where
   | oPush (e : Elem) | oPop | oPut (e : Elem) | o | flushO
@@ -182,9 +221,23 @@ def stepO (s : St) : Option St :=
   match s.opc with
   | .idle => none
   | .stuck => none
-  | .pu0 e => let t := viewTop s.bufO s.top
-              if t = s.size then some { s with opc := .stuck } else some { s with opc := .pu0f e t }
-  | .pu0f e t => if fenceOk s.cfg.pushRb s.bufO then some { s with opc := .pu1 e t } else none
+  | .pu0 e => some { s with opc := .pu0f e (viewTop s.bufO s.top) }
+  | .pu0f e t => if fenceOk s.cfg.pushRb s.bufO then
+                   (if t = s.size then some { s with opc := .pul e } else some { s with opc := .pu1 e t })
+                 else none
+  | .pul e => if s.bufO.isEmpty then
+                match s.lock with
+                | .free => some { s with lock := .owner, opc := .pub e }
+                | _ => some s
+              else none
+  | .pub e => if viewBase s.bufO s.base = 0 then some { s with opc := .stuck }
+              else some { s with opc := .pum e (rcOff (viewBase s.bufO s.base)) }
+  | .pum e off => some { s with bufO := s.bufO ++ [.shift (viewBase s.bufO s.base) (viewTop s.bufO s.top) off],
+                                sh := off, opc := .pus e off }
+  | .pus e off => some { s with bufO := s.bufO ++ [.top (viewTop s.bufO s.top + off)], opc := .puv e off }
+  | .puv e off => some { s with bufO := s.bufO ++ [.base (viewBase s.bufO s.base + off)],
+                                opc := .pux e (viewTop s.bufO s.top) }
+  | .pux e t => (releaseO s).map fun s' => { s' with opc := .pu1 e t }
   | .pu1 e t => some { s with bufO := s.bufO ++ [.ptr t (some e)], opc := .pu2 e t }
   | .pu2 e t => some { s with bufO := s.bufO ++ [.top (t + 1)], opc := .idle,
                               A := s.A ++ [e], lt := s.lt + 1, ins := e :: s.ins }
@@ -221,7 +274,13 @@ def stepO (s : St) : Option St :=
                 | .free => some { s with lock := .owner, opc := .pt1 e }
                 | _ => some s
               else none
-  | .pt1 e => if viewBase s.bufO s.base = 0 then some { s with opc := .stuckL } else some { s with opc := .pt6 e }
+  | .pt1 e => if viewBase s.bufO s.base = 0 then some { s with opc := .pt2 e } else some { s with opc := .pt6 e }
+  | .pt2 e => if viewTop s.bufO s.top = s.size then some { s with opc := .stuckL }
+              else some { s with opc := .pt3 e ((s.size - viewTop s.bufO s.top + 1) / 2) }
+  | .pt3 e off => some { s with bufO := s.bufO ++ [.shift (viewBase s.bufO s.base) (viewTop s.bufO s.top) off],
+                                sh := off, opc := .pt4 e off }
+  | .pt4 e off => some { s with bufO := s.bufO ++ [.top (viewTop s.bufO s.top + off)], opc := .pt5 e off }
+  | .pt5 e off => some { s with bufO := s.bufO ++ [.base (viewBase s.bufO s.base + off)], opc := .pt6 e }
   | .pt6 e => some { s with opc := .pt7 e (viewBase s.bufO s.base) }
   | .pt7 e b => some { s with bufO := s.bufO ++ [.ptr (b - 1) (some e)], opc := .pt8 e b }
   | .pt8 e b => some { s with bufO := s.bufO ++ [.baseI (b - 1) e], opc := .pt9 }
